@@ -479,6 +479,62 @@ func c16BindVsTimeout() *sched.Scenario {
 		}}
 }
 
+// c16SlowDialBindWindow: the peer answers the Connect's SYN after 10 s. The 30 s in which the id can be bound count
+// from the Connect success response that names it: a ConnectionBind 25 s after that response (35 s after the
+// Connect request) binds, and the bytes reach the peer.
+func c16SlowDialBindWindow() *sched.Scenario {
+	return &sched.Scenario{Name: "c16-bind-window-after-a-slow-dial", Bound: bound(), FreeBound: 2, Opt: opt,
+		Body: func(*vsched.Sched) (func() []string, func()) {
+			w := sched.NewBW(sched.BCfg{Stream: true, SlowDial: 10 * time.Second})
+			c := w.NewClient("c1")
+			pl, err := w.Net.ListenTCPAddr("tcp4", &net.TCPAddr{IP: vtx.PeerSpec["B"].IP, Port: 5000})
+			if err != nil {
+				panic(err)
+			}
+			var nt notes
+			d1 := dataConn(w, c, 31001)
+			vsched.OnWind(func() { _ = d1.Close() })
+			vsched.Go("driver", func() {
+				c.Do(wire.Allocate, tcp)
+				r := c.Do(wire.Connect, peer("B"))
+				id, ok := r.U32(wire.AttrConnectionID)
+				if !ok {
+					nt.set("connect", "failed")
+
+					return
+				}
+				peerEnd := pl.Take()
+				vsched.IdleSleep(25 * time.Second)
+				vsched.Mark()
+				var tx [12]byte
+				copy(tx[:], "bind-25s")
+				_, _ = d1.Write(bindReq(c, id, tx))
+				vsched.Block("await", "bind", func() bool { return d1.PendingIn() > 0 || d1.SawEOF() })
+				m, _ := readResp(d1)
+				if m == nil || m.Class != wire.Success {
+					nt.set("bind", "refused")
+
+					return
+				}
+				_, _ = d1.Write([]byte("ping"))
+				vsched.Block("await", "peer-bytes", func() bool { return peerEnd.PendingIn() > 0 || peerEnd.SawEOF() })
+				got, _ := peerEnd.TakeAll()
+				nt.set("bind", "success:"+string(got))
+			})
+
+			return func() []string {
+				switch {
+				case nt.get("connect") == "failed":
+					return []string{"c16:connect-failed"}
+				case nt.get("bind") != "success:ping":
+					return []string{"c16:bind-25s-after-the-connect-success-of-a-slow-dial:" + nt.get("bind")}
+				}
+
+				return nil
+			}, func() { _ = w.Srv.Close() }
+		}}
+}
+
 // c16InboundVsRealloc: a permitted peer connects to the relayed address of a TCP allocation while the client deletes
 // that allocation (Refresh 0) and allocates again on the same 5-tuple. The connection was accepted at the FIRST
 // relayed address: it belongs to the first allocation or is dropped; it is never bindable under the second one
@@ -793,6 +849,66 @@ func c15ServerCloseVsDialCompletion() *sched.Scenario {
 				out := balance(w, s)
 				if o := nt.get("open"); o != "0" {
 					out = append(out, "c15:peer-connection-open-after-server-close:"+o)
+				}
+
+				return out
+			}, nil
+		}}
+}
+
+// c15ServerCloseDuringSlowAllocate: the server (UDP listener) is closed while an Allocate is still inside the relay
+// address generator (1 s). Whatever that request still creates once the generator returns is released as well:
+// 3 s later no allocation is counted, no relay socket is open, and created / deleted callbacks pair up.
+func c15ServerCloseDuringSlowAllocate() *sched.Scenario {
+	return &sched.Scenario{Name: "c15-server-close-during-a-slow-allocate", Bound: bound(), FreeBound: 3, Opt: opt,
+		Body: func(s *vsched.Sched) (func() []string, func()) {
+			w := sched.NewBW(sched.BCfg{SlowAlloc: time.Second})
+			c := w.NewClient("c1")
+			vsched.Go("client", func() {
+				c.Do(wire.Allocate, udp)        // learns the nonce ...
+				c.Do(wire.Refresh, lifetime(0)) // ... and leaves nothing behind
+				c.Fire(wire.Allocate, udp)
+				vsched.IdleSleep(500 * time.Millisecond)
+				vsched.Mark()
+				_ = w.Srv.Close()
+				vsched.IdleSleep(3 * time.Second)
+			})
+
+			return func() []string { return balance(w, s) }, nil
+		}}
+}
+
+// c15Realloc: Refresh 0, Allocate again on the same 5-tuple while the goroutines of the first allocation are still
+// winding down, then the server is closed: the reported count is that of the live allocations at every step (1
+// after the second Allocate, whichever late goroutine has run), and at the end nothing of either allocation is left.
+func c15Realloc() *sched.Scenario {
+	return &sched.Scenario{Name: "c15-refresh0-then-allocate-then-server-close", Bound: bound(), FreeBound: 3, Opt: opt,
+		Body: func(s *vsched.Sched) (func() []string, func()) {
+			w := sched.NewBW(sched.BCfg{})
+			c := w.NewClient("c1")
+			var nt notes
+			vsched.Go("client", func() {
+				c.Do(wire.Allocate, udp)
+				vsched.Mark()
+				c.Do(wire.Refresh, lifetime(0))
+				if r := c.Do(wire.Allocate, udp); r.Class != wire.Success {
+					nt.set("second", fmt.Sprintf("refused-%d", r.ErrorCode()))
+
+					return
+				}
+				vsched.IdleSleep(time.Second)
+				nt.set("count", fmt.Sprint(w.Srv.AllocationCount()))
+				_ = w.Srv.Close()
+				vsched.IdleSleep(time.Second)
+			})
+
+			return func() []string {
+				out := balance(w, s)
+				switch {
+				case nt.get("second") != "":
+					out = append(out, "c15:harness:second-allocate-"+nt.get("second"))
+				case nt.get("count") != "1":
+					out = append(out, "c15:allocation-count-"+nt.get("count")+"-with-one-live-allocation")
 				}
 
 				return out
@@ -1270,6 +1386,60 @@ func c19RetransmitDuringSlowAllocate() *sched.Scenario {
 		}}
 }
 
+// c19SlowGeneratorShortLifetime: the relay address generator takes `gen` to produce the relay socket of an Allocate
+// that asks for LIFETIME 1. The success response reports the lifetime actually in force: 700 ms after it the
+// allocation still exists, 3 s after it the allocation and its relay socket are gone.
+func c19SlowGeneratorShortLifetime(gen time.Duration) *sched.Scenario {
+	return &sched.Scenario{Name: "c19-lifetime-1s-with-a-generator-that-takes-" + gen.String(), Bound: bound(), FreeBound: 2, Opt: opt,
+		Body: func(*vsched.Sched) (func() []string, func()) {
+			w := sched.NewBW(sched.BCfg{SlowAlloc: gen})
+			c := w.NewClient("c1")
+			var nt notes
+			relaySockets := func() int {
+				n := 0
+				for _, sk := range w.Net.OpenUDP() {
+					if strings.HasPrefix(sk, "10.9.0.1:") {
+						n++
+					}
+				}
+
+				return n
+			}
+			vsched.Go("client", func() {
+				c.Fire(wire.Refresh, nil) // learns the nonce (401)
+				vsched.IdleSleep(10 * time.Millisecond)
+				c.Recv()
+				vsched.Mark()
+				r := c.Do(wire.Allocate, func(b *wire.B) { udp(b); b.U32(wire.AttrLifetime, 1) })
+				lt, _ := r.U32(wire.AttrLifetime)
+				if r.Class != wire.Success || lt != 1 {
+					nt.set("alloc", fmt.Sprintf("class=%d lifetime=%d", r.Class, lt))
+
+					return
+				}
+				vsched.IdleSleep(700 * time.Millisecond)
+				nt.set("at+0.7s", fmt.Sprintf("count=%d,relay-sockets=%d", w.Srv.AllocationCount(), relaySockets()))
+				vsched.IdleSleep(2300 * time.Millisecond)
+				nt.set("at+3s", fmt.Sprintf("count=%d,relay-sockets=%d", w.Srv.AllocationCount(), relaySockets()))
+			})
+
+			return func() []string {
+				var out []string
+				if a := nt.get("alloc"); a != "" {
+					return []string{"c19:harness:allocate:" + a}
+				}
+				if g := nt.get("at+0.7s"); g != "count=1,relay-sockets=1" {
+					out = append(out, "c19:allocation-gone-before-the-lifetime-reported:"+g)
+				}
+				if g := nt.get("at+3s"); g != "count=0,relay-sockets=0" {
+					out = append(out, "c19:allocation-outlives-the-lifetime-reported:"+g)
+				}
+
+				return out
+			}, func() { _ = w.Srv.Close() }
+		}}
+}
+
 func run(t *testing.T, prop string, scs ...*sched.Scenario) {
 	r := rep.New(prop)
 	defer r.Write()
@@ -1287,7 +1457,7 @@ func TestC02Sched(t *testing.T) {
 func TestC19Sched(t *testing.T) {
 	// c06Realloc: the relayed address an Allocate success has just reported must be one that works - also when the
 	// goroutines of the allocation that held the 5-tuple before are still winding down
-	run(t, "C19", c19RetransmitDuringSlowAllocate(), c19ErrorPreparedBeforeSlowGenerator(), c06Realloc())
+	run(t, "C19", c19RetransmitDuringSlowAllocate(), c19ErrorPreparedBeforeSlowGenerator(), c06Realloc(), c19SlowGeneratorShortLifetime(500*time.Millisecond), c19SlowGeneratorShortLifetime(2*time.Second))
 }
 func TestC07Sched(t *testing.T) { run(t, "C07", c07RefreshVsExpiry("perm"), c07RefreshVsExpiry("chan")) }
 func TestC06Sched(t *testing.T) { run(t, "C06", c06Realloc(), c06ReallocVsTimer(), c06Reconnect(), c06RefreshVsExpiry()) }
@@ -1295,7 +1465,7 @@ func TestC06Sched(t *testing.T) { run(t, "C06", c06Realloc(), c06ReallocVsTimer(
 func TestC05Sched(t *testing.T) { run(t, "C05", c05StreamRelayVsResponse()) }
 
 func TestC04Sched(t *testing.T) { run(t, "C04", c04TwoConns(), c06Reconnect()) }
-func TestC16Sched(t *testing.T) { run(t, "C16", c16TwoBinds(), c16BindVsTimeout(), c16FullDuplex(), c16InboundVsRealloc()) }
+func TestC16Sched(t *testing.T) { run(t, "C16", c16TwoBinds(), c16BindVsTimeout(), c16FullDuplex(), c16InboundVsRealloc(), c16SlowDialBindWindow()) }
 func TestC15Sched(t *testing.T) {
-	run(t, "C15", c15SlowCallback("alloc"), c15SlowCallback("perm"), c15SlowCallback("chan"), c15SlowCallbackReq("perm", "chanbind"), c15EqualDeadlines(), c15SlowDial("other"), c15SlowDial("own"), c15RequestDuringSlowTeardown(), c15ServerCloseVsRefresh(), c15ServerCloseVsDialCompletion())
+	run(t, "C15", c15SlowCallback("alloc"), c15SlowCallback("perm"), c15SlowCallback("chan"), c15SlowCallbackReq("perm", "chanbind"), c15EqualDeadlines(), c15SlowDial("other"), c15SlowDial("own"), c15RequestDuringSlowTeardown(), c15ServerCloseVsRefresh(), c15ServerCloseVsDialCompletion(), c15ServerCloseDuringSlowAllocate(), c15Realloc())
 }
